@@ -193,6 +193,8 @@ class FuncV:
     pending: List[Any] = field(default_factory=list)  # decorator expressions not yet applied
     attrs: Dict[str, Any] = field(default_factory=dict)  # attributes stored on the function object
     wrapped: Any = None  # (expr, env, module) of the argument of @functools.wraps(...)
+    memo: Any = None  # dict of cached results for functions under functools.lru_cache / cache
+    registry: Any = None  # [(class value, implementation)] for functools.singledispatch functions
 
     def __repr__(self) -> str:
         return f"<fn {self.module.name}.{self.qualname}>"
@@ -205,6 +207,7 @@ class ClassV:
     qualname: str
     env: Any = None
     overrides: Dict[str, Any] = field(default_factory=dict)  # attributes assigned on the class object
+    enum_members: Any = None  # name -> member object, for enum.Enum subclasses (built on first use)
 
     def __repr__(self) -> str:
         return f"<class {self.module.name}.{self.qualname}>"
